@@ -37,7 +37,8 @@ MODELS = ["OptiVerif.Model.Pd", "OptiVerif.Gen.PdTable"]
 RULE = ("cases = PD calls on random / CW optical fields (N in {17,18,31,32,33,64,100,127}, 1/2 pol, with/without optical noise) x every "
         "include_noise option in random letter case x r in (0,1] (incl. 1, int 1) x T (incl. 0) x R_load x i_dark x Fn x gv(sps,R) x BW in "
         "(0,fs/2) x numpy seed, each with twin calls (other seed, phase rotation, unitary mixing, scaled r/R_load, scaled amplitude); "
-        "validation cells (value kinds of r,T,R_load,include_noise,input x boundary values); unknown option strings; thorough: variance "
+        "histories = the same PD call (same BW, arguments, seed) repeated in one process under 3-4 different gv sampling rates, "
+        "each output judged end to end against a filter designed afresh for the rate in force; validation cells (value kinds of r,T,R_load,include_noise,input x boundary values); unknown option strings; thorough: variance "
         "soaks of 2^18 samples. non-trivial = accepted call on a non-zero field; distinct by all parameters")
 PARTIAL = [
     "measured variance of the thermal/shot noise after the output filter = sigma^2 x noise-equivalent bandwidth: statistical oracle "
@@ -59,6 +60,16 @@ CONTENT = {  # option -> (sig-noise beating, noise-noise beating, thermal, shot)
     "ase-shot": (1, 1, 0, 1), "thermal-shot": (0, 0, 1, 1), "all": (1, 1, 1, 1)}
 LENS = [17, 18, 31, 32, 33, 64, 100, 127]
 GVS = [(16, 10e9), (8, 1e9), (5, 40e9), (32, 2.5e9)]
+# the same cut-off must recur under different sampling rates (a design cached per BW would survive a gv reconfiguration)
+BW_RECUR = [2e9, 3e9, 8e9, 12e9]
+# histories: one process, same BW and parameters, the global sampling rate reconfigured between the calls
+HISTORIES = [
+    (4e9, [(2, 10e9), (8, 10e9), (4, 10e9)]),               # 20, 80, 40 GS/s
+    (4e9, [(8, 10e9), (4, 10e9), (2, 10e9), (8, 10e9)]),    # descending and back to the first
+    (1e9, [(16, 1e9), (8, 1e9), (32, 1e9), (16, 1e9)]),
+    (6e9, [(5, 40e9), (16, 10e9), (32, 2.5e9)]),            # 200, 160, 80 GS/s
+    (2.5e9, [(4, 2.5e9), (16, 2.5e9), (8, 2.5e9)]),
+]
 
 
 def _recase(rng, s):
@@ -85,11 +96,12 @@ def gen_cases(rng, tier):
                 for _ in range(reps):
                     sps, R = rng.choice(GVS)
                     fs = sps * R
+                    recur = [b for b in BW_RECUR if 0.02 * fs <= b <= 0.45 * fs]
                     cases.append({
                         "kind": "run", "n": rng.choice(LENS), "npol": npol, "noise": noise,
                         "field": rng.choice(["random", "random", "cw"]), "amp": rng.choice([1.0, 0.03, 1e-3]),
                         "seed": rng.getrandbits(32), "np_seed": rng.getrandbits(31), "np_seed2": rng.getrandbits(31),
-                        "sps": sps, "R": R, "BW": rng.uniform(0.02, 0.45) * fs,
+                        "sps": sps, "R": R, "BW": rng.choice(recur) if recur and rng.random() < 0.5 else rng.uniform(0.02, 0.45) * fs,
                         "r": rng.choice([_py("float", 1.0), _py("int", 1), _py("float", 0.5), _py("float", rng.uniform(0.01, 1.0)),
                                          _py("np.float64", 0.8)]),
                         "T": rng.choice([_py("float", 300.0), _py("int", 300), _py("int", 0), _py("float", rng.uniform(0.0, 400.0))]),
@@ -99,6 +111,17 @@ def gen_cases(rng, tier):
                         "twin_r": rng.uniform(0.1, 1.0), "twin_R": rng.uniform(10.0, 500.0),
                         "twin_c": [rng.uniform(-2, 2), rng.uniform(-2, 2)], "twin_persample": rng.random() < 0.5,
                     })
+    # histories: the same call repeated while gv's sampling rate changes
+    hreps = 1 if tier == "quick" else 4
+    for BW, steps in HISTORIES:
+        for opt in ("ase-only", "thermal-only", "all"):          # no random term / thermal noise under a fixed seed / everything
+            for _ in range(hreps):
+                cases.append({
+                    "kind": "history", "steps": [list(st) for st in steps], "n": rng.choice([32, 64, 100]), "npol": rng.choice([1, 2]),
+                    "noise": opt == "all", "field": rng.choice(["random", "cw"]), "amp": rng.choice([1.0, 0.03]),
+                    "seed": rng.getrandbits(32), "np_seed": rng.getrandbits(31), "sps": steps[0][0], "R": steps[0][1], "BW": BW,
+                    "r": _py("float", rng.choice([1.0, 0.7])), "T": _py("float", 300.0), "R_load": _py("float", 50.0),
+                    "sel": _py("str", _recase(rng, opt)), "i_dark": 10e-9, "Fn": rng.choice([0.0, 3.0])})
     # validation cells and unknown options
     base = {"kind": "valid", "n": 20, "npol": 1, "noise": False, "field": "random", "amp": 0.03, "seed": 7, "np_seed": 11,
             "sps": 16, "R": 10e9, "BW": 5e9, "r": _py("float", 1.0), "T": _py("float", 300.0), "R_load": _py("float", 50.0),
@@ -319,6 +342,20 @@ def run_impl(case):
         with warnings.catch_warnings():
             warnings.simplefilter("ignore")
             gv.clean()
+            if case["kind"] == "history":
+                # ONE process, gv reconfigured between the calls (no gv.clean() in between: as a user would do)
+                res["steps"] = []
+                for sps, R in case["steps"]:
+                    gv(sps=sps, R=R)
+                    s, nz = _field(case)
+                    r, T, Rl, sel = _obj(case["r"]), _obj(case["T"]), _obj(case["R_load"]), _obj(case["sel"])
+                    c = _call_pd(case, s, nz, r, T, Rl, sel, case["np_seed"])
+                    res["steps"].append({"kB": res["kB"], "e": res["e"], "fs": float(gv.fs), "status": "done",
+                                         "mro": {"r": _mro(r), "T": _mro(T), "R_load": _mro(Rl), "sel": _mro(sel)},
+                                         "inp": {"sig": _rows(s), "noise": None if nz is None else _rows(nz)}, "main": _pack(c)})
+                res["main"] = res["steps"][-1]["main"]
+                res["status"] = "done"
+                return res
             gv(sps=case["sps"], R=case["R"])
             res["fs"] = float(gv.fs)
             s, nz = _field(case)
@@ -415,9 +452,17 @@ def _enc_sel(spec):
     return "o"
 
 
+def _substeps(case, res):
+    """a history as a list of ordinary (case, result) pairs, one per sampling rate"""
+    for (sps, R), sr in zip(case["steps"], res.get("steps", [])):
+        yield dict(case, kind="run", sps=sps, R=R), sr
+
+
 def model_requests(case, res):
     if res.get("status") != "done" or case["kind"] == "stat":
         return []
+    if case["kind"] == "history":
+        return [q for sc, sr in _substeps(case, res) for q in model_requests(sc, sr)]
     main = res["main"]
     draws = main["rng"]
     # which recorded draw is the thermal one / the shot one: by the lower-cased option, as the code decides (substring tests)
@@ -453,6 +498,13 @@ def _parse_reqs(t):
 def compare(case, res, reqs, replies):
     if not reqs:
         return []
+    if case["kind"] == "history":
+        out, pos = [], 0
+        for k, (sc, sr) in enumerate(_substeps(case, res)):
+            rq = model_requests(sc, sr)
+            out += [f"step {k} (fs={sr['fs']:.3g}): {d}" for d in compare(sc, sr, rq, replies[pos:pos + len(rq)])]
+            pos += len(rq)
+        return out
     main = res["main"]
     rep = replies[0]
     out = []
@@ -563,6 +615,13 @@ def oracle(case, res):
         return [("C09:timeout", "PD did not return")]
     if res.get("status") != "done":
         return [("C09:harness", f"harness failure: {res.get('detail')}")]
+    if case["kind"] == "history":
+        # every call of the sequence is judged END TO END against a filter designed afresh for the rate then in force
+        for k, (sc, sr) in enumerate(_substeps(case, res)):
+            for sig, msg in oracle(sc, sr):
+                v.append((sig.replace("C09:", "C09:history:", 1),
+                          f"call {k} of the sequence fs = {[a * b for a, b in case['steps']]} (BW = {case['BW']:.3g}, same arguments): {msg}"))
+        return v
     main = res["main"]
     if main["status"] == "timeout":
         return [("C09:timeout", "PD did not return")]
@@ -689,7 +748,9 @@ def features(case, res):
     f = ["kind=" + case["kind"], "status=" + str(res.get("status"))]
     m = res.get("main") or {}
     f.append("impl=" + str(m.get("status")) + (":" + str(m.get("err")) if m.get("status") == "err" else ""))
-    if case["kind"] in ("run", "stat"):
+    if case["kind"] == "history":
+        f += ["history-len=%d" % len(case["steps"]), "opt=" + case["sel"]["v"].lower(), "BW=%g" % case["BW"]]
+    elif case["kind"] in ("run", "stat"):
         f += ["opt=" + case["sel"]["v"].lower(), f"npol={case['npol']}", "optical-noise" if case["noise"] else "no-optical-noise",
               "field=" + case["field"], f"draws={len(m.get('rng', []))}",
               "case=" + ("lower" if case["sel"]["v"].islower() else "upper" if case["sel"]["v"].isupper() else "mixed")]
@@ -706,5 +767,7 @@ def nontrivial_key(case, res):
     m = res.get("main") or {}
     if res.get("status") != "done" or m.get("status") != "ok":
         return None
+    if case["kind"] == "history":
+        return ("history", repr(case["steps"]), case["BW"], case["sel"]["v"], case["seed"], case["npol"])
     return (case["kind"], case["n"], case["npol"], case["noise"], case["field"], case["sel"]["v"], case["seed"], case["np_seed"],
             case["r"]["v"], case["T"]["v"], case["R_load"]["v"], case["sps"], case["R"])
